@@ -90,6 +90,15 @@ func c20OrderBySub(c *Ctx) {
 			r.Fail(rule, construct, pos, fmt.Sprintf("%v: the sign of a wrapped difference is not the order of its operands once they differ by half the range", bad))
 		}
 	}
-	r.Floor(rule, 20)
+	// The rule is bound to every function of the package, however many there are
+	// (helpers come and go with refactoring). What must not happen is that it runs
+	// on an empty or partial package: the order / membership predicates the
+	// property names have to be among the functions examined.
+	for _, a := range [][2]string{{"IPv4", "IsInSubnet"}, {"IPv4", "IsInRange"}, {"IPv6", "IsInSubnet"}, {"IPv6", "IsInRange"}, {"IPv4Range", "Contains"}, {"IPv6Range", "Contains"}} {
+		if fn := p.Func(ipPkg, a[0], a[1]); fn == nil || fn.Blocks == nil {
+			r.Undecided(rule, "("+a[0]+")."+a[1], "-", "anchored predicate does not resolve: the rule would pass vacuously on it")
+		}
+	}
+	r.Floor(rule, 6)
 	r.Extra["R6_functions"] = n
 }
